@@ -8,7 +8,7 @@ From Verif Require Import Lib.Base Decode.GoSlice Decode.GoSliceFacts Decode.Nod
   Decode.More Decode.MoreProofs Decode.StreamDepth Decode.StreamDepthProofs Decode.Coverage Gen.DecoderInventory
   Decode.CborValue Decode.CborValueProofs
   Gen.DecodeConsts Gen.QuoteConsts Gen.MiscConsts.
-From Verif Require Decode.Conn Decode.ConnProofs.
+From Verif Require Decode.Conn Decode.ConnProofs Decode.Evidence Decode.EvidenceProofs.
 
 Theorem gen_layout_expected :
   DepthSize = 2 /\ ValueLengthSize = 4 /\ HashSize = 32 /\
@@ -458,3 +458,23 @@ Theorem conn_nodelete_blocks :
               Conn.blocked (Conn.run true evs) = 0.
 Proof. exact ConnProofs.conn_nodelete_blocks_l. Qed.
 Print Assumptions conn_nodelete_blocks.
+
+(* ---------- roothash equivocation evidence: stateless validation over optional wire fields ----------
+   (roothash/api/api.go EquivocationExecutorEvidence.ValidateBasic, commitment/executor.go
+   ExecutorCommitment.ValidateBasic, hash.Hash.Equal on a nil receiver = panic) *)
+(* the statement order found in the source: MostlyEqual, both ValidateBasic calls, THEN the
+   comparisons that dereference IORoot / StateRoot / MessagesHash, then the signatures *)
+Theorem gen_evidence_order_expected : evidence_vb_order = Evidence.evidence_vb_order_expected.
+Proof. reflexivity. Qed.
+Print Assumptions gen_evidence_order_expected.
+
+Theorem evidence_validate_basic_total : forall sigs_ok a b,
+  Evidence.evidence_validate_basic sigs_ok a b <> Panic.
+Proof. exact EvidenceProofs.evidence_validate_basic_total_l. Qed.
+Print Assumptions evidence_validate_basic_total.
+
+Theorem evidence_reordered_panics :
+  exists a b, Evidence.evidence_validate_basic_reordered true a b = Panic /\
+              Evidence.evidence_validate_basic true a b = Err Evidence.V_COMMIT_A.
+Proof. exact EvidenceProofs.evidence_reordered_panics_l. Qed.
+Print Assumptions evidence_reordered_panics.
